@@ -318,6 +318,8 @@ def run(run, rng):
         hist = gen_history(rng)
         strings = [gen_string(rng, lenchg=lenchg) for _ in range(BATCH - 70)] + multiword_family(rng, hist, 30) + glued_candidates(rng, hist, 40)
         # segments that begin with a character without a Unicode name (DEL, C1 controls, private use, Tangut), each category and length more than once
+        # alpha runs whose normal form C has another number of characters (conjoining Hangul jamo compose, Hebrew presentation forms decompose)
+        strings += ['love\u1100\u1161\u11a8house1', '\u1112\u1161\u11ab\u1100\u1173\u11af12', 'ab\ufb2acd!', 'pass\ufb2a\ufb2bword', '\u1100\u1161blue\u1102\u1161']
         strings += ['\x7f!\x7f', 'ab\x7f\x7f1', '\x7f\x7fcd2', '\U00017000\U00017001\U00017002\U00017003x1', '\U00017004\U00017001\U00017002\U00017003y2', '\uf8ff1\uf8ff', 'q\x80\x801', '\x80\x80z']
         rng.shuffle(strings)
         case = {'history': hist, 'strings': strings}
